@@ -5,6 +5,10 @@
                                           (wraps every implemented method), get_current_user (signed cookie),
                                           Application (cookie_secret generated per instance)
      mitmproxy/tools/web/webaddons.py     WebAuth.is_valid_password
+   The client talks over keep-alive connections: `open` says that its current connection has carried a request and is
+   still usable; a probe is sent either on that connection (kept) or on a fresh one.  Authentication is decided per
+   REQUEST (_require_auth runs for every request; nothing is remembered per connection), so `kept` does not appear in
+   Outcome.
    A behaviour is a short session: up to MaxPre preparatory steps (logins that fill the client's cookie jar, a restart
    of the application, a password change), then ONE probe request out of Rows / SessRows, then nothing.
    Outcome of a request, in the order the code decides it:
@@ -31,8 +35,9 @@ CONSTANTS Routes,      \* route names
           MaxPre
 VARIABLES valid,   \* cookie numbers the running instance accepts
           jar,     \* cookie numbers the client holds, oldest first
+          open,    \* the client's current keep-alive connection is usable (it carried the last request)
           nextCk, pwChanged, n, probed, mon, obs
-vars == <<valid, jar, nextCk, pwChanged, n, probed, mon, obs>>
+vars == <<valid, jar, open, nextCk, pwChanged, n, probed, mon, obs>>
 
 Std == {"GET", "HEAD", "POST", "DELETE", "PATCH", "PUT", "OPTIONS"}
 XsrfOk(x) == x \in {"pair_hdr", "pair_arg", "pair_form", "pair_remask", "pair_csrfhdr"}
@@ -44,7 +49,7 @@ CredOk(c) == IF c \in {"bearer_valid", "query_valid", "form_valid", "bearer_empt
 ForgedNo(ck) == CASE ck = "plain" -> -1 [] ck = "garbage" -> -2 [] ck = "tampered" -> -3 [] ck = "forged" -> -4
                   [] ck = "forged_v1" -> -5 [] ck = "xsrf_only" -> -6 [] OTHER -> 0
 
-Init == /\ valid = {} /\ jar = <<>> /\ nextCk = 1 /\ pwChanged = FALSE /\ n = 0 /\ probed = FALSE
+Init == /\ valid = {} /\ jar = <<>> /\ open = FALSE /\ nextCk = 1 /\ pwChanged = FALSE /\ n = 0 /\ probed = FALSE
         /\ mon = MonInit /\ obs = <<>>
 Live == mon.bad = <<>> /\ ~probed
 Emit(evs) == obs' = evs /\ mon' = FoldEvents(MonStep, mon, evs)
@@ -60,12 +65,12 @@ Outcome(route, method, cred, ckvalid, xsrf, sfs) ==
 Status(o) == CASE o = "s405" -> 405 [] o = "s403" -> 403 [] o = "sprep" -> PrepareStatus [] OTHER -> 0
 
 \* one request through the pipeline; ckno = number of the presented cookie (0 none, < 0 forged)
-Req(route, method, cred, ckno, xsrf, sfs) ==
+Req(route, method, cred, ckno, xsrf, sfs, kept) ==
   LET ckvalid == ckno > 0 /\ ckno \in valid
       o == Outcome(route, method, cred, ckvalid, xsrf, sfs)
       grant == o = "handler" /\ Kind[route] # "static" /\ ~ckvalid     \* set_signed_cookie in _require_auth
   IN [ev |-> [k |-> "req", route |-> route, cls |-> Kind[route], method |-> method,
-              impl |-> method \in Impl[route], cred |-> cred, credok |-> CredOk(cred),
+              impl |-> method \in Impl[route], cred |-> cred, credok |-> CredOk(cred), kept |-> kept,
               ck |-> ckno, setck |-> IF grant THEN nextCk ELSE 0,
               xsrf |-> xsrf, xsrfok |-> XsrfOk(xsrf), sfs |-> sfs,
               status |-> Status(o), changed |-> FALSE, leak |-> FALSE, pred |-> o],
@@ -74,8 +79,9 @@ Req(route, method, cred, ckno, xsrf, sfs) ==
 \* a login: GET / with the password (form flavour: the login form, POST / with token and _xsrf in the body)
 Login(c) ==
   /\ Live /\ n < MaxPre /\ n' = n + 1 /\ c \in Logins
-  /\ LET r == IF c = "form_valid" THEN Req("IndexHandler", "POST", c, 0, "pair_form", "same-origin")
-                                  ELSE Req("IndexHandler", "GET", c, 0, "none", "") IN
+  /\ open' = TRUE                     \* a login opens a fresh connection and leaves it open
+  /\ LET r == IF c = "form_valid" THEN Req("IndexHandler", "POST", c, 0, "pair_form", "same-origin", FALSE)
+                                  ELSE Req("IndexHandler", "GET", c, 0, "none", "", FALSE) IN
      /\ Emit(<<r.ev>>)
      /\ valid' = IF r.grant THEN valid \cup {nextCk} ELSE valid
      /\ jar' = IF r.grant THEN Append(jar, nextCk) ELSE jar
@@ -85,23 +91,25 @@ Login(c) ==
 \* mitmweb is restarted: Application.__init__ draws a new cookie_secret
 Restart ==
   /\ Live /\ n < MaxPre /\ n' = n + 1 /\ jar # <<>> /\ valid # {}
-  /\ valid' = {} /\ Emit(<<[k |-> "restart"]>>)
+  /\ valid' = {} /\ open' = FALSE /\ Emit(<<[k |-> "restart"]>>)
   /\ UNCHANGED <<jar, nextCk, pwChanged, probed>>
 
 \* the operator sets a new web_password (WebAuth.configure); sessions stay, the old password stops working
 NewPw ==
   /\ Live /\ n < MaxPre /\ n' = n + 1 /\ ~pwChanged
   /\ pwChanged' = TRUE /\ Emit(<<[k |-> "newpw"]>>)
-  /\ UNCHANGED <<valid, jar, nextCk, probed>>
+  /\ UNCHANGED <<valid, jar, open, nextCk, probed>>
 
-Probe(row) ==
+Probe(row, kept) ==
   /\ Live /\ probed' = TRUE /\ UNCHANGED <<n, pwChanged>>
+  /\ kept => open
+  /\ open' = TRUE
   /\ \/ n = 0 /\ row \in Rows
      \/ n > 0 /\ row \in SessRows
   /\ row[4] \in {"jar", "jar_first"} => jar # <<>>
   /\ row[3] \in {"bearer_old", "query_old"} => pwChanged
   /\ LET ckno == CASE row[4] = "jar" -> jar[Len(jar)] [] row[4] = "jar_first" -> jar[1] [] OTHER -> ForgedNo(row[4])
-         r == Req(row[1], row[2], row[3], ckno, row[5], row[6]) IN
+         r == Req(row[1], row[2], row[3], ckno, row[5], row[6], kept) IN
      /\ Emit(<<r.ev>>)
      /\ valid' = IF r.grant THEN valid \cup {nextCk} ELSE valid
      /\ jar' = IF r.grant THEN Append(jar, nextCk) ELSE jar
@@ -110,7 +118,7 @@ Probe(row) ==
 Next == \/ \E c \in Logins : Login(c)
         \/ Restart
         \/ NewPw
-        \/ \E row \in Rows \cup SessRows : Probe(row)
+        \/ \E row \in Rows \cup SessRows, kept \in BOOLEAN : Probe(row, kept)
 Spec == Init /\ [][Next]_vars
 Report == mon.bad # <<>> => PrintT(<<"BAD", mon.bad>>)
 =============================================================================
